@@ -91,6 +91,13 @@ pub fn universe(name: &str) -> Vec<Key> {
             let (a, b): (u32, u32) = (a.parse().unwrap(), b.parse().unwrap());
             (a..b).map(|i| cluster_key(p, i)).collect()
         }
+        // SUB:<name>:<i>,<j>,… — the keys of universe <name> at the given indices
+        n if n.starts_with("SUB:") => {
+            let rest = &n[4..];
+            let (name, idx) = rest.rsplit_once(':').unwrap();
+            let base = universe(name);
+            idx.split(',').map(|i| base[i.parse::<usize>().unwrap()]).collect()
+        }
         // NB:<name> — the keys of <name> plus, for each, the keys differing from it in exactly one
         // of the bits {0,1,5,6,7,11,12,13,18,127,254,255} (absent neighbours at every page boundary)
         n if n.starts_with("NB:") => {
